@@ -210,7 +210,14 @@ func (r *Report) Finish() int {
 
 	replayDir := filepath.Join(r.verifDir, "replays")
 	var vioOut []map[string]any
-	for _, v := range fresh {
+	const maxListed = 25
+	if len(fresh) > maxListed {
+		fmt.Printf("(%d violations observed; the first %d are listed with replay files)\n", len(fresh), maxListed)
+	}
+	for i, v := range fresh {
+		if i >= maxListed {
+			break
+		}
 		os.MkdirAll(replayDir, 0o755)
 		name := fmt.Sprintf("%s-%s.json", r.Property, hash(v.Case+"|"+v.Sig+"|"+v.What))
 		path := filepath.Join(replayDir, name)
